@@ -268,6 +268,22 @@ class CompiledLogicNet(torch.nn.Module):
 
         return layer_info
 
+    def _conv_input_var(self, source: str, coords, channel, in_dim, padding) -> str:
+        """C expression for one convolution input.
+
+        `coords` are spatial coordinates in the zero-padded image (as stored in
+        layer.indices); the source buffer holds the unpadded image, so positions
+        inside the padding border read the zero literal.
+        """
+        padding = padding or 0
+        coords = [int(v) - padding for v in coords]
+        if any(v < 0 or v >= n for v, n in zip(coords, in_dim)):
+            return BITS_TO_ZERO_LITERAL[self.num_bits]
+        terms = [" * ".join([str(int(channel))] + [str(n) for n in in_dim])]
+        for axis, v in enumerate(coords):
+            terms.append(" * ".join([str(v)] + [str(n) for n in in_dim[axis + 1:]]))
+        return f"{source}[{' + '.join(terms)}]"
+
     def _get_conv_layer_code(self, conv_info: Dict[str, Any], layer_name: str) -> List[str]:
         """Generate C code for a convolutional layer."""
         code = []
@@ -317,48 +333,19 @@ class CompiledLogicNet(torch.nn.Module):
                     # Determine input source
                     prev_layer_name = self._get_previous_layer_name(layer_name)
                     if prev_layer_name == "inp":
-                        if conv_dim==2:
-                            left_var = (
-                                f"inp[{left_c} * {conv_info['in_dim'][0]} * {conv_info['in_dim'][1]} + "
-                                f"{left_h} * {conv_info['in_dim'][1]} + {left_w}]"
-                            )
-                            right_var = (
-                                f"inp[{right_c} * {conv_info['in_dim'][0]} * {conv_info['in_dim'][1]} + "
-                                f"{right_h} * {conv_info['in_dim'][1]} + {right_w}]"
-                            )
-                        else:
-                            left_var = (
-                                f"inp[{left_c} * {conv_info['in_dim'][0]} * {conv_info['in_dim'][1]} * {conv_info['in_dim'][2]} + "
-                                f"{left_h} * {conv_info['in_dim'][1]} * {conv_info['in_dim'][2]} + "
-                                f"{left_w} * {conv_info['in_dim'][2]} + {left_d}]"
-                            )
-                            right_var = (
-                                f"inp[{right_c} * {conv_info['in_dim'][0]} * {conv_info['in_dim'][1]} * {conv_info['in_dim'][2]} + "
-                                f"{right_h} * {conv_info['in_dim'][1]} * {conv_info['in_dim'][2]} + "
-                                f"{right_w} * {conv_info['in_dim'][2]} + {right_d}]"
-                            )
+                        source = "inp"
                     else:
-                        if conv_dim == 2:
-                            left_var = (
-                                f"layer_{prev_layer_name}_out[{left_c} * {conv_info['in_dim'][0]} * {conv_info['in_dim'][1]} + "
-                                f"{left_h} * {conv_info['in_dim'][1]} + {left_w}]"
-                            )
-                            right_var = (
-                                f"layer_{prev_layer_name}_out[{right_c} * {conv_info['in_dim'][0]} * {conv_info['in_dim'][1]} + "
-                                f"{right_h} * {conv_info['in_dim'][1]} + {right_w}]"
-                            )
-                        else:
-                            left_var = (
-                                f"layer_{prev_layer_name}_out[{left_c} * {conv_info['in_dim'][0]} * {conv_info['in_dim'][1]} * {conv_info['in_dim'][2]} + "
-                                f"{left_h} * {conv_info['in_dim'][1]} * {conv_info['in_dim'][2]} + "
-                                f"{left_w} * {conv_info['in_dim'][2]} + {left_d}]"
-                            )
-                            right_var = (
-                                f"layer_{prev_layer_name}_out[{right_c} * {conv_info['in_dim'][0]} * {conv_info['in_dim'][1]} * {conv_info['in_dim'][2]} + "
-                                f"{right_h} * {conv_info['in_dim'][1]} * {conv_info['in_dim'][2]} + "
-                                f"{right_w} * {conv_info['in_dim'][2]} + {right_d}]"
-                            )
-
+                        source = f"layer_{prev_layer_name}_out"
+                    if conv_dim == 2:
+                        left_var = self._conv_input_var(
+                            source, (left_h, left_w), left_c, conv_info['in_dim'], conv_info['padding'])
+                        right_var = self._conv_input_var(
+                            source, (right_h, right_w), right_c, conv_info['in_dim'], conv_info['padding'])
+                    else:
+                        left_var = self._conv_input_var(
+                            source, (left_h, left_w, left_d), left_c, conv_info['in_dim'], conv_info['padding'])
+                        right_var = self._conv_input_var(
+                            source, (right_h, right_w, right_d), right_c, conv_info['in_dim'], conv_info['padding'])
 
                     var_name = f"conv_{layer_name}_k{kernel_idx}_p{pos_idx}_l0_g{gate_idx}"
                     code.append(
